@@ -27,10 +27,18 @@ BODIES = {
     "enum-cmp": ("ENUM { A, B(#[ord(key = kk::<1, _>(&$))] u8, #[eq(ignore)] #[ord(ignore)] u8), C { #[ord(reverse)] a: u8 } }",
                  ["PartialEq", "Eq", "PartialOrd", "Ord", "Hash"], "ENUM", "cmp"),
     "clone-default": ("{ #[default(sd(0))] pub a: u8, #[default(K0)] pub m: M, pub r: R }", ["Clone", "Default"], None, "clone-default"),
+    # type-level helper attributes (value for the whole type; bound(..) placements that change nothing for a non-generic type)
+    "type-level": ("TATTR[#[default(Self { a: sd(1), m: M::direct(5), r: R(9) })]]{ pub a: u8, pub m: M, pub r: R }",
+                   ["Default", "Clone"], None, "clone-default"),
+    # Debug with helper attributes, Debug in every position of the list
+    "debug-helpers": ("TATTR[#[debug(bound(..))] #[partial_eq(bound(..))]]{ #[debug(ignore)] pub a: u8, pub b: F, #[debug(ignore)] pub c: u8 }", ["Debug", "Clone", "PartialEq"], "{ a: v[0], b: F(v[1]), c: v[2] }", "debug"),
 }
 
 
 def type_text(name, body, pre):
+    if body.startswith("TATTR["):
+        tattrs, body = body[6:].split("]{", 1)
+        return "%s\n%s\npub struct %s {%s\n" % ("\n".join(pre), tattrs, name, body)
     if body.startswith("ENUM"):
         return "%s\npub enum %s %s\n" % ("\n".join(pre), name, body[4:])
     return "%s\npub struct %s %s\n" % ("\n".join(pre), name, body)
@@ -94,6 +102,16 @@ def build(name, body_id, rnd, tier, superset=False):
             if "Hash" in traits:
                 b += ["    { let mut h0 = Rec::new(); Hash::hash(&x_%s, &mut h0); let mut h1 = Rec::new(); Hash::hash(&x_%s, &mut h1);" % (t0n, tn),
                       '      assert!(h0.same(&h1), "hash-feed-differs-%s"); }' % tn]
+    elif kind == "debug":
+        # same bytes from every copy; the copies are named T0..T5, so the second byte (the digit) is left out of the comparison
+        b += ["    use core::fmt::Write;", "    let v = [s.u8(), s.u8(), s.u8()];"]
+        for tn in names:
+            b += ["    let x_%s = %s %s;" % (tn, tn, ctor), "    let mut k_%s = Sink::new();" % tn, '    let _ = write!(k_%s, "{:?}", x_%s);' % (tn, tn)]
+        b.append('    cover!(k_%s.len > 8 && !k_%s.overflow, "printed");' % (names[0], names[0]))
+        for tn in names[1:]:
+            b += ["    {", "        let mut same = k_%s.len == k_%s.len && k_%s.overflow == k_%s.overflow;" % (names[0], tn, names[0], tn),
+                  "        let mut i = 0;", "        while i < 24 {", "            if i != 1 && k_%s.buf[i] != k_%s.buf[i] { same = false; }" % (names[0], tn),
+                  "            i += 1;", "        }", '        assert!(same, "debug-differs-%s");' % tn, "    }"]
     else:
         b += ["    set_seeds(s);"]
         for tn in names:
@@ -105,7 +123,7 @@ def build(name, body_id, rnd, tier, superset=False):
             b += ["    trace_reset();", "    let c_%s = %s { a: p, m: M::direct(p), r: R(p) }.clone();" % (tn, tn), "    let t_%s = trace_take();" % tn]
         for tn in names[1:]:
             b.append('    assert!(c_%s.a == c_%s.a && c_%s.r.0 == c_%s.r.0 && trace_same(&t_%s, &t_%s), "clone-differs-%s");' % (names[0], tn, names[0], tn, names[0], tn, tn))
-    src += "pub fn check<S: Src>(s: &mut S) {\n%s\n}\n\n" % "\n".join(b) + e1.harness(unwind=18)
+    src += "pub fn check<S: Src>(s: &mut S) {\n%s\n}\n\n" % "\n".join(b) + e1.harness(unwind=66 if kind == "debug" else 18)
     return kani_runner.Program(name, src, "%s|%s" % (body_id, "superset" if superset else "entry+split"), desc, True)
 
 
@@ -179,6 +197,13 @@ def e3_kernel(out):
             obl.discharged += 1
         else:
             out.violation("from_args_list-order", "-", "DeriveEntry::from_args_list does not yield one entry per listed trait in list order: %s" % (seq,))
+    # (d) every entry's arguments are its own (nothing carried over from the neighbouring trait or list)
+    from . import e3_extras
+    o2 = e3_extras.safe(e3_extras.entry_args_provenance, out, PID)
+    obl.total += o2.total
+    obl.discharged += o2.discharged
+    obl.solver_time += o2.solver_time
+    obl.functions.update(o2.functions)
     return eng, obl
 
 
@@ -189,7 +214,7 @@ def run(tier):
     progs = []
     for body_id in BODIES:
         progs.append(build("p%05d" % len(progs), body_id, rnd, tier))
-        if body_id != "clone-default":
+        if body_id not in ("clone-default", "type-level", "debug-helpers"):
             progs.append(build("p%05d" % len(progs), body_id, rnd, tier, superset=True))
     try:
         eng, obl = e3_kernel(out)
